@@ -433,7 +433,7 @@ def run_shard(spec, ctx):
                 ctx.case_id(seq_id(idx), nontrivial(ops))
                 run_history(ops, ctx, tm, fsr, check_every_step=False)
         ctx.samples.append({"ops": [ATOMS[3], ATOMS[40]]})
-        ctx.bump("exhaustive", "len<=2_done", 1)
+        ctx.bump("exhaustive_parts", "len<=2_done", 1)
     elif mode == "exh3":
         for i in spec["first"]:
             for j in range(n):
@@ -441,7 +441,7 @@ def run_shard(spec, ctx):
                     ops = [ATOMS[i], ATOMS[j], ATOMS[k]]
                     ctx.case_id(seq_id((i, j, k)), nontrivial(ops))
                     run_history(ops, ctx, tm, fsr, check_every_step=False)
-            ctx.bump("exhaustive", "len3_first_ops_done", 1)
+            ctx.bump("exhaustive_parts", "len3_first_ops_done", 1)
         ctx.samples.append({"ops": ops})
     elif mode == "exh3sample":
         rng = ctx.rng
@@ -466,7 +466,7 @@ def run_shard(spec, ctx):
 
 def finalize(m, tier, results):
     n = len(ATOMS)
-    ex = m["extra"].get("exhaustive", {})
+    ex = m["extra"].get("exhaustive_parts", {})
     m["extra"]["alphabet_size"] = n
     if tier == "thorough":
         full = ex.get("len<=2_done", 0) == 1 and ex.get("len3_first_ops_done", 0) == n
